@@ -108,6 +108,7 @@ func (c15) Run(t *tape.Tape, st *Stats) *Violation {
 		}
 	})
 	races := simrt.RaceErrors() - racesBefore
+	harnessLimit(panicked)
 	st.Class(name + ":" + kindNames[kind])
 	st.Steps += res.Steps
 	st.Digest = tape.Mix(st.Digest, res.SeqHash, uint64(res.NSwitch))
